@@ -1015,6 +1015,16 @@ func validateNode(node Node, depth int, inSubscript bool) error {
 	return nil
 }
 
+// negateLiteral flips the sign of the numeric literal lit: it strips a
+// leading minus sign, or else prepends one, so that negating an already
+// negative literal (as in "- -1") does not produce an unparsable "--1".
+func negateLiteral(lit string) string {
+	if neg, ok := strings.CutPrefix(lit, "-"); ok {
+		return neg
+	}
+	return "-" + lit
+}
+
 // NewUnaryOrNumber returns a new node for op ast.UnaryPlus or ast.UnaryMinus.
 // If node is numeric and not the first item in an accessor list, it returns a
 // ast.NumericNode or ast.IntegerNode, as appropriate.
@@ -1027,8 +1037,8 @@ func NewUnaryOrNumber(op UnaryOperator, node Node) Node {
 				// Just a positive number, return it.
 				return node
 			case UnaryMinus:
-				// Just a negative number, return it with the minus sign.
-				return NewNumeric("-" + node.literal)
+				// Just a negative number, return it with the sign flipped.
+				return NewNumeric(negateLiteral(node.literal))
 			default:
 				panic(fmt.Sprintf("Operator must be + or - but is %v", op))
 			}
@@ -1038,8 +1048,8 @@ func NewUnaryOrNumber(op UnaryOperator, node Node) Node {
 				// Just a positive number, return it.
 				return node
 			case UnaryMinus:
-				// Just a negative number, return it with the minus sign.
-				return NewInteger("-" + node.literal)
+				// Just a negative number, return it with the sign flipped.
+				return NewInteger(negateLiteral(node.literal))
 			default:
 				panic(fmt.Sprintf("Operator must be + or - but is %v", op))
 			}
